@@ -39,6 +39,11 @@ def agree(impl, ref):
     if ref.status == "reject":
         if impl.rejected is not None:
             return True, None
+        if ref.reason == "asterisk-form-without-OPTIONS" and impl.msgs and isinstance(impl.msgs[0][0].method, str) \
+                and impl.msgs[0][0].method == "OPTIONS":
+            # the implementation saw OPTIONS only because it folded the case of another token
+            # ('OPTIONs *'): that is the case-folding finding, not a second one
+            return False, "method-case-folded"
         return False, f"{ref.reason}:impl-accepts"
     if impl.rejected is not None:
         if ref.soft is not None or ref.status == "incomplete":
